@@ -493,9 +493,9 @@ func runC11(c *config) {
 		rp := readReplay(c.replay)
 		name := unhx(rp.Detail["name"].(string))
 		pos, _ := rp.Detail["position"].(string)
-		for _, p := range append(append(poss, sposs...), dposs...) {
+		for _, p := range append(append(append(poss, sposs...), dposs...), c11CharPositions()...) {
 			if p.name == pos {
-				c11RoundTrip(c, p, name, true)
+				c11RoundTrip(c, p, name, !strings.HasPrefix(pos, "char_array."))
 			}
 		}
 		return
@@ -560,6 +560,8 @@ func runC11(c *config) {
 			}
 		}
 	}
+	// character arrays through every constructor, over UTF-8 and non-UTF-8 byte strings (c11chars.go)
+	c11Chars(c, newRng(c.seed, "c11chars"), names)
 	// a name is never mistaken for an ID: unnamed and "numerically named" globals side by side
 	for _, n := range []string{"0", "1", "42"} {
 		m := ir.NewModule()
